@@ -16,6 +16,7 @@ import (
 	"path/filepath"
 	"sort"
 	"time"
+	"verif/harness/chain"
 
 	abci "github.com/cometbft/cometbft/abci/types"
 	cmtproto "github.com/cometbft/cometbft/proto/tendermint/types"
@@ -121,6 +122,7 @@ func NewNodeFromExport(appState []byte, height int64, t time.Time) (*Node, error
 
 func (n *Node) Close() {
 	if n.App != nil {
+		chain.CloseStores(n.App)
 		_ = n.App.Close()
 	}
 	if n.vm != nil {
@@ -148,7 +150,8 @@ func (n *Node) Restart() {
 	copyTree(n.dir, dir, "exclusive.lock")
 	n.oldDirs = append(n.oldDirs, n.dir)
 	n.dir = dir
-	// the dropped process's VM goes with it
+	// the dropped process's VM and background goroutines go with it
+	chain.CloseStores(n.App)
 	if n.vm != nil {
 		n.vm.Cleanup()
 	}
